@@ -552,9 +552,18 @@ def check_seek_amounts(rep: Report, rule: str) -> None:
             sel = p.vars.get("selected_acquired_lot_amount", (None,))[0]
             has = any("has_partial_amount" in c or "in lot_candidates" in c for c in conds)
             exit_kind = p.exit
+            returning = any(q.exit == "return" for q in paths)
             if exit_kind == "return":
-                # selection by returning from inside the loop instead of break + flag variables: the amount rules below read the flag idiom only
-                rep.defer_error(f"{loc(loop)}: {fi.qualname}: a path of the candidate loop returns {show(p.ret)[:100] if p.ret else None}: neither the break-and-flag nor the early-return selection idiom, not decided for this shape")
+                # selection by returning from inside the loop instead of break + flag variables: the offered amount is the record's amount field
+                amt = dict(p.ret[2]).get("amount") if p.ret is not None and p.ret[0] == "new" and len(p.ret) > 2 and p.ret[1].endswith("AcquiredLotAndAmount") else None
+                if amt is None:
+                    rep.defer_error(f"{loc(loop)}: {fi.qualname}: a path of the candidate loop returns {show(p.ret)[:100] if p.ret else None}: neither the break-and-flag nor the early-return selection idiom, not decided for this shape")
+                    continue
+                sel, exit_kind = amt, "break"
+            elif exit_kind == "break" and returning and sel is None:
+                # early-return idiom: leaving the loop without a selection ends the seek with 'no lot'; only for a lot that offers nothing
+                ok = any(c[0] == "cmp" and show(c).rstrip(")").endswith("<= D0") for c in p.conds())  # a plain comparison, not one alternative of a wider test
+                rep.check(ok, rule, fi.module, fi.qualname, f"{cls}: the search ends without a lot only when the candidate offers nothing", f"the candidate loop is left without selecting the lot under {conds}; expected only when its amount is not > ZERO", loc(loop))
                 continue
             if exit_kind == "break":
                 neg_has = any(c.startswith("not ") and ("__acquired_lot_2_partial_amount" in c) for c in conds) or any("not in" in c and "__acquired_lot_2_partial_amount" in c for c in conds)
@@ -586,6 +595,11 @@ def check_heap_typestate(rep: Report, rb: str) -> None:
     init.vars["selected_acquired_lot_amount"] = (("sym", "selected_amount"), ("cls", "rp2.rp2_decimal:RP2Decimal"))
     paths = se.run(after, init)
     selecting = [p for p in paths if p.exit == "return" and p.ret is not None and p.ret[0] == "new"]
+    if not selecting and loops and isinstance(loops[0].target, ast.Name):
+        # early-return idiom: the record is returned from inside the candidate loop, the loop variable is the selected lot
+        init = SPath()
+        init.vars[loops[0].target.id] = (("sym", "selected"), ("cls", "rp2.in_transaction:InTransaction"))
+        selecting = [p for p in se.run(loops[0].body, init) if p.exit == "return" and p.ret is not None and p.ret[0] == "new" and dict(p.ret[2]).get("acquired_lot") == ("sym", "selected")]
     if not selecting:
         raise AnalysisError("feature-based seek has no path returning a selected lot")
     unconditional = True
